@@ -107,3 +107,38 @@ func TestReplay(t *testing.T) {
 	}
 	fmt.Printf("REPLAY-OK property=%s\n", c.Property)
 }
+
+// TestRegress replays every saved case under VERIF_REGRESS_DIR (shrunk failures of defects that
+// were repaired, and seeds worth keeping): the seconds-long replay tier.
+func TestRegress(t *testing.T) {
+	dir := os.Getenv("VERIF_REGRESS_DIR")
+	if dir == "" {
+		t.Skip("VERIF_REGRESS_DIR not set")
+	}
+	ents, err := os.ReadDir(dir)
+	if err != nil {
+		return
+	}
+	for _, e := range ents {
+		if e.IsDir() || len(e.Name()) < 6 || e.Name()[len(e.Name())-5:] != ".json" {
+			continue
+		}
+		b, err := os.ReadFile(dir + "/" + e.Name())
+		if err != nil {
+			continue
+		}
+		var c Case
+		if json.Unmarshal(b, &c) != nil {
+			continue
+		}
+		check, ok := registry[c.Property]
+		if !ok {
+			continue
+		}
+		c.Violation, c.Signature = "", ""
+		st.Class("regression-replays")
+		if v := evalCase(&c, check); v != nil {
+			t.Fatalf("regression case %s violates %s [%s]: %s", e.Name(), c.Property, v.Signature, v.Detail)
+		}
+	}
+}
